@@ -24,7 +24,8 @@ func runC13(w *World) *Result {
 	r.Rule("R-C13-index", "index/slice expressions discharged by range, guard, constant array or reviewed argument", 30)
 	r.Rule("R-C13-rec", "recursion consumes input or is guarded by a visited set consulted for the very value handed to the recursive load", 2)
 	r.Rule("R-C13-result", "error ⇒ empty script; no explicit panic; non-empty error messages", 10)
-	r.Rule("R-C13-progress", "parser loops consume a token on every iteration or leave through an error", 10)
+	r.Rule("R-C13-progress", "parser loops consume a token on every iteration or leave through an error; lexer character tests fail at the end of the input", 12)
+	ClassTestRule(w, r, "R-C13-progress")
 	c13Assert(w, r)
 	c13Index(w, r)
 	c13Rec(w, r)
